@@ -917,6 +917,13 @@ func (g *gen) makePattern() (*pattern, bool) {
 			if strings.Contains(e, " ") {
 				e = "(" + e + ")"
 			}
+			if g.chance(0.35) {
+				// fillers whose variants differ only in a token that the AST records as a position
+				e = g.pick("h(a...)", "h(a, b...)", "h(a, b)", "func() { type T = int }", "func() { type T int }",
+					"func() { var (q int) }", "func() { var q int }", "make(<-chan int)", "make(chan int)",
+					"func(xs ...int) {}", "func(xs []int) {}", "new(func() (int))", "new(func() int)",
+					"new(struct{ a, b int })", "new(interface{ M() })", "x.(type2)", "s[1:2:3]", "s[1:2]")
+			}
 			frag = g.pick("foo("+e+", "+e+")", e+" == "+e, "g("+e+", h("+e+"))", "T{A: "+e+", B: "+e+"}",
 				e+".Do("+e+")", "bar("+e+", 1, "+e+")", "f(func() int { return "+e+" }, "+e+")")
 		}
@@ -994,6 +1001,9 @@ func (g *gen) instance(p *pattern, pInconsistent float64) string {
 		case hExpr:
 			if t, ok := bind[h.name]; ok && !g.chance(pInconsistent) {
 				texts[i] = t
+			} else if ok && g.chance(0.6) {
+				// an almost identical filler: one token differs
+				texts[i] = g.nearCopy(t)
 			} else {
 				t := h.text
 				if g.chance(0.7) {
@@ -1027,6 +1037,28 @@ func (g *gen) instance(p *pattern, pInconsistent float64) string {
 		}
 	}
 	return fill(p.frag, p.holes, texts)
+}
+
+// nearCopy returns code that differs from t in a single token, preferring the
+// tokens go/ast represents only by the validity of a position.
+func (g *gen) nearCopy(t string) string {
+	type tog struct{ from, to string }
+	togs := []tog{{"...)", ")"}, {"type T = int", "type T int"}, {"type T int", "type T = int"}, {"var (q int)", "var q int"},
+		{"var q int", "var (q int)"}, {"<-chan", "chan"}, {"(xs ...int)", "(xs []int)"}, {"() (int)", "() int"}, {"() int)", "() (int))"},
+		{"[1:2:3]", "[1:2]"}, {"[1:2]", "[1:2:3]"}, {"a, b int", "a int; b int"}}
+	g.r.Shuffle(len(togs), func(i, j int) { togs[i], togs[j] = togs[j], togs[i] })
+	for _, tg := range togs {
+		if strings.Contains(t, tg.from) {
+			return strings.Replace(t, tg.from, tg.to, 1)
+		}
+	}
+	if strings.HasSuffix(t, ")") && !strings.HasSuffix(t, "()") && !strings.Contains(t, "...") && strings.Contains(t, "(") && g.chance(0.5) {
+		return t[:len(t)-1] + "...)"
+	}
+	if m, ok := g.tokenMutate(t, nil); ok {
+		return m
+	}
+	return t + "2"
 }
 
 // embed places fragments into a file.
